@@ -11,8 +11,8 @@ import types
 import z3
 
 from .values import (Sym, SInt, SBool, SReal, SStr, SSeq, Cell, Obj, ExcVal, Bound, Closure, GenObj, Opaque,
-                     Unsupported, PyRaise, py_raise, is_sym, has_sym, zi, zb, zr, zs, zseq, INT_EK,
-                     is_intlike, is_numlike, IntSeq)
+                     Unsupported, PyRaise, py_raise, is_sym, has_sym, zi, zb, zr, zs, zseq, INT_EK, REAL_EK,
+                     is_intlike, is_numlike, IntSeq, seq_sum_fn)
 from . import dsl
 
 MODEL_NOTES = {
@@ -453,6 +453,11 @@ class Models:
         import ast
         items = self._items(ip, it)
         if items is None:
+            sv = it.v if isinstance(it, Cell) else it
+            if isinstance(sv, SSeq) and sv.ek in (INT_EK, REAL_EK) and not is_sym(start) and start == 0:
+                f = seq_sum_fn(sv.ek)
+                r = f(sv.e, z3.Length(sv.e))
+                return SInt(r) if sv.ek is INT_EK else SReal(r)
             raise Unsupported('sum over a sequence of unknown length')
         acc = start
         for v in items:
@@ -1063,7 +1068,38 @@ class Models:
             raise PyRaise(type(ex), ex.args)
 
     def map_comprehension(self, ip, e, fr, it):
-        raise Unsupported('comprehension over a sequence of unknown length')
+        """[f(x) for x in s] / (f(x) for x in s) over a sequence of unknown length, f branch-free:
+        a fresh sequence r with len r == len s and r[k] == f(s[k]) for all k"""
+        import ast as _ast
+        from .interp import Frame
+        from .msgs import SMsg
+        gens = e.generators
+        if len(gens) != 1 or gens[0].ifs:
+            raise Unsupported('filtering / nested comprehension over a sequence of unknown length')
+        sv = it.v if isinstance(it, Cell) else it
+        ctx = ip.ctx
+        k = ctx.fresh('mapidx')
+        env = dict(fr.env)
+        cfr = Frame(fr.name, env, fr.g, fr.fi)
+        ip.assign(gens[0].target, sv.ek.wrap(sv.e[k]), cfr)
+        pos0 = len(ctx.decisions), ctx.pos
+        val = ip.eval(e.elt, cfr)
+        if (len(ctx.decisions), ctx.pos) != pos0:
+            raise Unsupported('comprehension element expression branches on the element')
+        if isinstance(val, (SInt, SBool)) or (isinstance(val, int) and not isinstance(val, bool)):
+            ek, term = INT_EK, zi(val)
+        elif isinstance(val, (SReal, float)):
+            ek, term = REAL_EK, zr(val)
+        elif isinstance(val, SMsg):
+            ek, term = val.ek, val.e
+        else:
+            raise Unsupported('comprehension element of unsupported kind over a sequence of unknown length')
+        r = ctx.fresh('mapped', ek.seqsort)
+        n = z3.Length(sv.e)
+        ctx.assume(z3.Length(r) == n)
+        ctx.assume(dsl.All(0, n, lambda j: r[j] == z3.substitute(term, (k, j if z3.is_expr(j) else z3.IntVal(j)))))
+        ctx.__dict__.setdefault('trace', []).append(('map', sv.e, r, _ast.unparse(e.elt)))
+        return SSeq(r, list, ek)
 
     # ------------------------------------------------------------ struct
     def m_struct_pack(self, ip, fmt, *vals):
